@@ -5,8 +5,11 @@ import (
 	"go/constant"
 	"go/token"
 	"go/types"
+	"os"
+	"runtime/debug"
 	"strings"
 	"sync"
+	"time"
 
 	"golang.org/x/tools/go/ssa"
 
@@ -22,6 +25,14 @@ type Program struct {
 	InitOK   func(pkgPath string) bool
 	Fset     *token.FileSet
 }
+
+type engineErr struct {
+	orig    interface{}
+	stack   []string
+	gostack string
+}
+
+var traceOn = os.Getenv("VERIF_TRACE") != ""
 
 type fnInfo struct {
 	idx    map[ssa.Value]int
@@ -175,7 +186,7 @@ func (ex *Exec) ensureInit(pkg *ssa.Package) {
 	sd := ex.depth
 	ex.depth = 0
 	defer func() { ex.stack = saved; ex.depth = sd }()
-	ex.runFunction(initFn, nil, nil)
+	ex.execFunction(initFn, nil, nil)
 }
 
 func (ex *Exec) unsupported(format string, a ...interface{}) {
@@ -212,25 +223,30 @@ func (ex *Exec) runFunction(fn *ssa.Function, args []Value, env []Value) Value {
 		defer func() { ex.stack = ex.stack[:len(ex.stack)-1] }()
 		return h(ex, fn, args)
 	}
-	if fn.Pkg != nil && fn.Name() == "init" && fn.Signature.Recv() == nil && fn.Parent() == nil {
-		// package initializer call from another initializer
-		if fn.Pkg.Func("init") == fn {
-			if ex.initDone[fn.Pkg] {
-				return nil
-			}
-			ex.initDone[fn.Pkg] = true
-			if ex.P.InitOK != nil && !ex.P.InitOK(fn.Pkg.Pkg.Path()) {
-				return nil
-			}
-		}
+	if fn.Pkg != nil && fn.Pkg.Func("init") == fn {
+		// package initializer called from another initializer
+		ex.ensureInit(fn.Pkg)
+		return nil
 	} else if fn.Pkg != nil && !ex.initDone[fn.Pkg] {
 		ex.ensureInit(fn.Pkg)
 	}
+	return ex.execFunction(fn, args, env)
+}
+
+func (ex *Exec) execFunction(fn *ssa.Function, args []Value, env []Value) Value {
 	if len(fn.Blocks) == 0 {
 		ex.unsupported("external function %s without model", fn.String())
 	}
 	if ex.depth > maxDepth {
 		panic(pathEnd{kind: endBudget, msg: "call depth exceeded in " + fn.String()})
+	}
+	if traceOn {
+		var as []string
+		for _, a := range args {
+			as = append(as, describe(a))
+		}
+		fmt.Printf("%*scall %s(%s)\n", ex.depth, "", shortFn(fn), strings.Join(as, ", "))
+		defer func() { fmt.Printf("%*sret  %s\n", ex.depth, "", shortFn(fn)) }()
 	}
 	fi := ex.P.info(fn)
 	fr := &frame{ex: ex, fn: fn, info: fi, env: make([]Value, fi.n)}
@@ -279,7 +295,15 @@ func (fr *frame) runBlocks() (done bool) {
 		if r := recover(); r != nil {
 			gp, ok := r.(goPanic)
 			if !ok {
-				panic(r)
+				switch r.(type) {
+				case pathEnd, engineErr:
+					panic(r)
+				}
+				var st []string
+				for i := len(ex.stack) - 1; i >= 0 && i > len(ex.stack)-10; i-- {
+					st = append(st, ex.stack[i].fn.String())
+				}
+				panic(engineErr{orig: r, stack: st, gostack: string(debug.Stack())})
 			}
 			// unwind interpreter bookkeeping to this frame
 			ex.depth = depth
@@ -356,6 +380,9 @@ func (fr *frame) step() bool {
 	b := fr.block
 	for _, ins := range b.Instrs {
 		ex.steps++
+		if ex.steps&0xfff == 0 && !ex.cfg.Deadline.IsZero() && time.Now().After(ex.cfg.Deadline.Add(20*time.Second)) {
+			panic(pathEnd{kind: endBudget, msg: "wall-clock deadline exceeded inside a path in " + ex.site()})
+		}
 		if ex.steps > ex.cfg.StepBudget {
 			panic(pathEnd{kind: endBudget, msg: fmt.Sprintf("instruction budget %d exceeded in %s", ex.cfg.StepBudget, ex.site())})
 		}
